@@ -45,8 +45,9 @@ open Goyang.Model.StateInv
 
 /-- Every field of the carried state is either registry / configuration / a mutex according to the
 reviewed allow-list, or written only by its pinned constructor / call-scoped writers, or derived
-state that the start of `Modules.Process` resets completely or guards by a generation counter -
-as computed from the current source.  A field the allow-list does not know is unjustified (unless
+state that the start of `Modules.Process` resets completely or guards by a generation counter
+and that only its pinned functions (and their private helpers) store into - as computed from the
+current source.  A field the allow-list does not know is unjustified (unless
 nothing in the package reads it); a derived field whose computed reset class is `partly` or
 `absent` is unjustified. -/
 theorem carried_state_justified : CarriedStateJustified Goyang.Gen.State.table = true := by decide +kernel
@@ -91,6 +92,17 @@ private def lostStamp : Field :=
 
 example : lostStamp.justified = false := by decide +kernel
 example : ({ lostStamp with reset := .generation } : Field).justified = true := by decide +kernel
+
+/-- a derived cache that is properly flushed but gets a new storing writer outside the flush and
+the lookup (C18-f2: `add` -> `supersedeNamespace` rewrites `byNS`, and `restoreNames` does not undo
+it when the text is refused) -/
+private def newWriter : Field :=
+  { owner := "Modules", name := "byNS", type := "map[string]*Module", exported := false, allow := .derived,
+    reset := .full, reads := 3, writers := ["Modules.FindModuleByNamespace", "Modules.Process", "Modules.supersedeNamespace"],
+    pinned := ["Modules.FindModuleByNamespace"], stray := ["Modules.supersedeNamespace"] }
+
+example : newWriter.justified = false := by decide +kernel
+example : ({ newWriter with stray := [] } : Field).justified = true := by decide +kernel
 
 /-- an informational field that nothing in the package reads needs no entry -/
 private def infoField : Field :=
